@@ -107,7 +107,7 @@ def default_rewards(spec, which, pops, n):
     return rs
 
 
-def run_stream(res, pid, specs, epoch_times=None, spaces=('lc', 'bc'), max_states=140):
+def run_stream(res, pid, specs, epoch_times=None, spaces=('lc', 'bc'), max_states=320):
     """Runs the stream; records violations in res. Returns per-case implementation dumps."""
     cases = []
     for spec in specs:
@@ -191,5 +191,5 @@ def run_stream(res, pid, specs, epoch_times=None, spaces=('lc', 'bc'), max_state
                         res.violation('reward vector differs from the model',
                                       dict(info, reward=r, positions=bad[:5], observed=[v[p] for p in bad[:5] if p < len(v)]))
             res.sample({'spec': c['spec'], 'space': w, 'states': len(dump['states'])}, cap=4)
-    res.stream('statespace', spaces=len(index))
+    res.stream('statespace', spaces=len(index), skipped_too_large=sum(1 for c in cases if 'error' not in impl[id(c)] for w in c['spaces'] for d in impl[id(c)][w] if len(d['states']) > max_states))
     return [(c, impl[id(c)]) for c in cases]
